@@ -31,6 +31,17 @@ def _real_uri_part(part):
     return part
 
 
+class _FalsyCallable:
+    def __init__(self, fn):
+        self.fn = fn
+
+    def __call__(self, *a, **k):
+        return self.fn(*a, **k)
+
+    def __len__(self):
+        return 0
+
+
 def name_in_repr(name, rep):
     """The same name in the representation the scenario asks for."""
     comps = comps_of(name)
@@ -310,11 +321,15 @@ def _classify(wire):
         typ, _ = enc.parse_tl_num(inner, 0)
     else:
         inner = wire
+    # an element that announces more bytes than its parent holds: malformed, whatever a lenient decoder makes of it.
+    # The packet is still classified as the library's decoder reads it (DESIGN section 4); a separate rule reports when
+    # such a packet was acted upon (known finding, see known_findings.txt)
+    overrun = typ in (enc.TypeNumber.DATA, enc.TypeNumber.INTEREST) and not tlvref.well_nested(inner)
     if typ == enc.TypeNumber.DATA:
         name, meta, content, sig = enc.parse_data(inner, with_tl=True)
         for c in name:
             enc.Component.get_type(c)
-        return {'kind': 'data', 'name': [bytes(c) for c in name],
+        return {'kind': 'data', 'name': [bytes(c) for c in name], 'overrun': overrun,
                 'content': None if content is None else bytes(content), 'inner': inner, 'lp': lp,
                 'digest': hashlib.sha256(inner).digest()}
     if typ == enc.TypeNumber.INTEREST:
@@ -330,7 +345,7 @@ def _classify(wire):
                 for blk in cov:
                     h.update(blk)
                 digest_ok = h.digest() == bytes(val)
-        return {'kind': 'interest', 'name': [bytes(c) for c in name], 'nonce': param.nonce,
+        return {'kind': 'interest', 'name': [bytes(c) for c in name], 'overrun': overrun, 'nonce': param.nonce,
                 'lifetime': param.lifetime, 'app_param': None if app_param is None else bytes(app_param),
                 'signed': sig.signature_info is not None, 'need': need, 'digest_ok': digest_ok,
                 'token': token, 'lp': lp, 'inner': inner}
@@ -694,6 +709,8 @@ class PipeWorld(World):
                     dwire = bytes(enc.make_data([bytes(c) for c in iname], enc.MetaInfo(),
                                                 content_bytes(rs.get('content', 4)), signer=DigestSha256Signer()))
                     world.after(rs.get('delay_us', 0), world._do_put, hid, param.nonce, k, dwire)
+        if op.get('falsy_handler'):
+            handler = _FalsyCallable(handler)       # a callable object that happens to be falsy (e.g. defines __len__)
         try:
             key = tuple(bytes(c) for c in comps_of(op['prefix']))
             if self.disp is not None:
